@@ -168,6 +168,19 @@ Fixpoint p_run (env : uenv) (st : ustate) (prev : uobs) (os : list uop) (steps :
          | Some mv => only_named prev ob (List.map fst mv) && exact_moves prev ob mv
          | None => false                                              (* no fee can be computed or paid: it must not succeed *)
          end
+       | ULock (LLock f _ _ a tk amt) =>
+         let mv := [(sp_key f a tk, - amt); (lk_key f a tk, amt)] in
+         only_named prev ob (List.map fst mv) && exact_moves prev ob mv
+       | ULock (LUnlock f _ id a _ amt) =>
+         (* funded by THAT lock: what the lock still holds (its record as the history left it, tracked by the model) covers
+            the amount; the address's other locks do not count *)
+         match (match f with FTok => us_tl st | FAllowed => us_al st end) !! id with
+         | Some r =>
+           (amt <=? l_cur r) &&
+           let mv := [(lk_key f a (l_tok r), - amt); (sp_key f a (l_tok r), amt)] in
+           only_named prev ob (List.map fst mv) && exact_moves prev ob mv
+         | None => false
+         end
        | _ =>
          match named me prev o with Some ks => only_named prev ob ks | None => true end &&   (* exactly the named balances *)
          match moves me prev o with Some mv => exact_moves prev ob mv | None => true end     (* by exactly the amounts *)
